@@ -196,6 +196,8 @@ def do_quantize(w, d, op, p):
             predicted[n] = kind
         seen.add(id(m))
     pre_params = {n: {pn: (pp.detach().clone(), pp.dtype, pp.device, pp.requires_grad) for pn, pp in m.named_parameters(recurse=False)} for n, m in before if n in predicted}
+    # the float tensors themselves (C13: quantize() reads them, it must not write them)
+    originals = {n: {pn: pp for pn, pp in m.named_parameters(recurse=False)} for n, m in before if n in predicted}
     pre_hyper = {n: {a: getattr(m, a, None) for a in HYPER[predicted[n]]} for n, m in before if n in predicted}
     pre_other = {n: R.tensor_digest(None) for n, m in before}
     other_digest = {n: hexdigest([(pn, R.tensor_digest(pp)) for pn, pp in m.named_parameters(recurse=False)]) for n, m in before if n not in predicted}
@@ -211,6 +213,10 @@ def do_quantize(w, d, op, p):
         w.judged("C08")
         w.violate("C08", "quantize_raises", "quantize", {"exc": type(e).__name__, "at": quanto_site(e)}, f"quantize() raised {e!r} on a tree of listed module kinds", p)
         return "error:" + type(e).__name__
+    for n, ps in originals.items():
+        for pn, pp in ps.items():
+            if R.tbytes(pp) != R.tbytes(pre_params[n][pn][0]):
+                w.violate("C13", "readonly_lib", "quantize", {"issue": "original_" + pn + "_modified"}, f"{n}.{pn}: the float tensor read by quantize() was modified in place", p)
     d.quantized = True
     d.qcfg = {"weights": op.get("weights"), "activations": op.get("activations"), "filter": op.get("filter"), "optimizer": op.get("optimizer")}
     d.stamp += 1
